@@ -317,8 +317,13 @@ CHECKS["C03"] = {
     "parts": [
         {"name": "rebalance", "pkg": ROOT, "test": "TestVerifC03", "kind": "rapid",
          "checks_quick": 12, "checks_thorough": 300, "shards_quick": 8, "shards_thorough": 16, "timeout_quick": 400, "timeout_thorough": 2400},
+        {"name": "race", "pkg": ROOT, "test": "TestVerifC03Race", "kind": "rapid",
+         "checks_quick": 24, "checks_thorough": 200, "shards_quick": 8, "shards_thorough": 16, "timeout_quick": 400, "timeout_thorough": 2400},
     ],
 }
+CHECKS["C03"]["level_text"] += (" Part race places one operation inside a step: a Put that has passed the owner check is held right before it locks the fragment, a member joins, the table is pushed and the old owner's balancer moves the fragment; "
+                                "at a drawn table move (after the send or before the drop) the Put is let go while the move is in progress. After the hand-over has been driven to the end the acknowledged Put and every other key must read their last value from every member.")
+CHECKS["C03"]["rule"] += "; part race: non-trivial = the key's partition moved to the joining member and the Put was let go while a table move was in flight"
 
 CHECKS["C06"] = {
     "level": "exploration",
